@@ -31,7 +31,7 @@ def cell_class(d, r, s, m):
     return "%s,%s" % (g, "silent" if s else "loud")
 
 
-def make_walk(edges_by_state, macros, rnd, revisit=2):
+def make_walk(edges_by_state, macros, rnd, revisit=2, enabled=lambda st, m: True):
     """A walk from (r=0, silent=F) taking every set_level / set_silent transition; all statements at the first visit of a
     configuration, two random ones at later visits."""
     cur = (0, False)
@@ -39,12 +39,13 @@ def make_walk(edges_by_state, macros, rnd, revisit=2):
     script, seen = [], set()
 
     def visit(st):
+        here = [m for m in macros if enabled(st, m)]          # some cells exist only in some configurations (write faults: not silenced)
         if st not in seen:
             seen.add(st)
-            for m in macros:
+            for m in here:
                 script.append(("X", m))
         else:
-            for m in rnd.sample(macros, revisit):
+            for m in rnd.sample(here, min(revisit, len(here))):
                 script.append(("X", m))
     visit(cur)
     while any(todo.values()):
@@ -126,15 +127,15 @@ def run(ctx):
         p, q = e["pre"], e["post"]
         if e["op"] == "execute":
             o = e["ret"]
-            allowed.setdefault((p["d"], p["r"], p["silent"]) + tuple(e["args"]), set()).add((o["out"], o["eval"], o["ctl"], o["els"]))
+            allowed.setdefault((p["d"], p["r"], p["silent"]) + tuple(e["args"]), set()).add((o["out"], o["eval"], o["ctl"], o["els"], o["garbled"]))
         else:
             a = e["args"][0]
             setedges.setdefault(p["d"], {}).setdefault((p["r"], p["silent"]), set()).add((e["op"], int(a), (q["r"], q["silent"])))
             if e["op"] == "set_silent" and e["ret"] != a:
                 raise Broken("spec: set_silent returns the new value")
-    macros = sorted({k[3:] for k in allowed})          # (statement, history, statement context, condition type)
+    macros = sorted({k[3:] for k in allowed})          # (statement, history, statement context, condition type, write fault)
     ds = sorted(setedges)
-    if len({m[0] for m in macros}) != 28 or len({m[2] for m in macros}) != 5 or len({m[3] for m in macros}) != 10 or len(ds) != 6:
+    if len({m[0] for m in macros}) != 28 or len({m[2] for m in macros}) != 5 or len({m[3] for m in macros}) != 10 or len({m[4] for m in macros}) != 7 or len(ds) != 6:
         raise Broken("matrix incomplete: %d statement/history/context triples, %d compile-time levels" % (len(macros), len(ds)))
     rnd = random.Random(ctx.seed)
     st = {"executed": 0, "sweep": 0}
@@ -144,19 +145,19 @@ def run(ctx):
     sizes = message_sizes()
 
     def judge(d, cur_r, cur_s, a, line, size):
-        m, hist, cx, ty = a
+        m, hist, cx, ty, wf = a
         w = line.split()
         f = dict(x.split("=", 1) for x in w[4:])
-        if w[0] != HLETTER[hist] or w[1] != stmt_name(m, ty) or w[2] != cx or int(w[3]) != size:
+        if w[0] != ("W" if wf != "none" else HLETTER[hist]) or w[1] != stmt_name(m, ty) or w[2] != cx or int(w[3]) != size:
             raise Broken("dbg_probe answered %r to %r" % (line, (a, size)))
         if w[0] == "Y" and f.get("ferr") != "1":
             raise Broken("the failed write on stderr could not be provoked (DEBUG=%d %s)" % (d, line))
-        obs = (f["out"], int(f["eval"]), f["ctl"], f["else"] == "1")
-        cell = (d, cur_r, cur_s, m, hist, cx, ty)
+        obs = (f["out"] if wf == "none" else "any", int(f["eval"]), f["ctl"], f["else"] == "1", f["garbled"] == "1")
+        cell = (d, cur_r, cur_s, m, hist, cx, ty, wf)
         st["executed"] += 1
         if size == 0:
             distinct.add(cell)
-            if obs != ("none", 0, "falls", False):
+            if obs != ("none", 0, "falls", False, False):
                 nontrivial.add(cell)
         else:
             st["sweep"] += 1
@@ -164,6 +165,9 @@ def run(ctx):
         ok = obs in allowed[cell]
         why = ""
         want = 2 if (cx == "loop2" and f["ctl"] == "falls") else 1
+        if wf != "none":
+            want = int(f["count"])              # what the environment drops is lost: completeness is not judged under a fault
+            f["text"] = "1"
         if ok and f["out"] != "none" and f["text"] != "1":
             ok, why = False, " (stream output without the statement's own complete message)"
         if ok and f["out"] != "none" and int(f["count"]) != want:
@@ -174,14 +178,16 @@ def run(ctx):
             ok, why = False, " (process ended with status %s, not through the fatal-error path)" % f["status"]
         if not ok:
             exp = sorted(allowed[cell])
-            tags = ({"clean": "", "after_failed_write": "/after-failed-write", "in_atexit_of_fatal": "/in-atexit-of-fatal"}[hist]
-                    + ("" if cx == "alone" else "/" + cx) + ("" if size == 0 else "/long-message") + ("" if ty == "int" else "/cond:" + ty))
-            key = "%s%s [%s] out=%s%s eval=%s ctl=%s else=%s" % (m, tags, cell_class(d, cur_r, cur_s, m), f["out"],
+            tags = ({"clean": "", "after_failed_write": "/after-failed-write", "in_atexit_of_fatal": "/in-atexit-of-fatal", "after_refused_print": "/after-refused-print"}[hist]
+                    + ("" if cx == "alone" else "/" + cx) + ("" if size == 0 else "/long-message") + ("" if ty == "int" else "/cond:" + ty)
+                    + ("" if wf == "none" else "/write-fault:" + wf))
+            tags = tags.replace("//", "/")
+            key = "%s%s [%s] %sout=%s%s eval=%s ctl=%s else=%s" % (m, tags, cell_class(d, cur_r, cur_s, m), "GARBLED " if f["garbled"] == "1" else "", f["out"],
                                                                  "/no-text" if (f["out"] != "none" and f["text"] != "1") else
                                                                  ("/count" if (f["out"] != "none" and int(f["count"]) != want) else ""),
                                                                  f["eval"], re.sub(r"\d+", "N", f["ctl"]), f["else"])
-            ctx.report(key, "DEBUG=%d runtime level %d silent=%s statement %s (history %s, context %s, condition type %s, message argument of %d bytes): observed %s%s; "
-                            "allowed by the rule (out, eval, ctl, else arm executed): %s" % (d, cur_r, cur_s, m, hist, cx, ty, size, line[:300], why, exp),
+            ctx.report(key, "DEBUG=%d runtime level %d silent=%s statement %s (history %s, context %s, condition type %s, write fault %s, message argument of %d bytes): observed %s%s; "
+                            "allowed by the rule (out, eval, ctl, else arm executed, garbled): %s" % (d, cur_r, cur_s, m, hist, cx, ty, wf, size, line[:300], why, exp),
                        {"debug": d, "level": cur_r, "silent": cur_s, "statement": m, "history": hist, "context": cx, "type": ty, "size": size,
                         "observed": line[:400], "allowed": [list(x) for x in exp],
                         "script": "L %d\nS %d\n%s\n" % (cur_r, int(cur_s), cmd_text("X", a, size))})
@@ -189,7 +195,8 @@ def run(ctx):
     for d in ds:
         libdir, cflags = build.build_lib(ctx.repo, debug_level=d)
         exe = build.build_harness("dbg_probe-d%d" % d, ["dbg_probe.c"], libdir, cflags)
-        script = make_walk(setedges[d], macros, rnd, revisit=2 if ctx.tier == "quick" else 24)
+        script = make_walk(setedges[d], macros, rnd, revisit=2 if ctx.tier == "quick" else 24,
+                           enabled=lambda st, m, d=d: (d, st[0], st[1]) + m in allowed)
         lines = run_probe(ctx, exe, d, script, "walk")
         cur_r, cur_s = 0, False
         for (c, a), line in zip(script, lines):
@@ -209,7 +216,7 @@ def run(ctx):
             judge(d, cur_r, cur_s, a, line, 0)
         # size sweep (direction B family): every message-bearing statement, every size, in the configuration where everything that is
         # compiled in is live (runtime level 6, not silenced); the rule does not know the message length, so the outcome is the cell's
-        sweep = [("L", 6), ("S", 0)] + [("Z", ((m, "clean", "alone", "int"), n)) for m in MSG_STATEMENTS for n in sizes]
+        sweep = [("L", 6), ("S", 0)] + [("Z", ((m, "clean", "alone", "int", "none"), n)) for m in MSG_STATEMENTS for n in sizes]
         lines = run_probe(ctx, exe, d, sweep, "sizes")
         for (c, a), line in zip(sweep, lines):
             if c == "Z":
@@ -239,13 +246,14 @@ def run(ctx):
                        "message-bearing statement in the all-live configuration of every build. A cell is non-trivial when something "
                        "observable happens (output, an evaluation, a return, an exit, an else arm); distinct = distinct cells (+ distinct "
                        "(cell, size) pairs of the sweep)")
-    ctx.sample({"cell": "DEBUG=5 R=5 loud D_MEM after a failed write on the stream", "allowed": [list(x) for x in sorted(allowed[(5, 5, False, "D_MEM", "after_failed_write", "alone", "int")])]})
-    ctx.sample({"cell": "DEBUG=4 R=2 loud DPRINTF3 as the then-arm of if (0) ... else", "allowed": [list(x) for x in sorted(allowed[(4, 2, False, "DPRINTF3", "clean", "then_false", "int")])]})
+    ctx.sample({"cell": "DEBUG=5 R=5 loud D_MEM after a failed write on the stream", "allowed": [list(x) for x in sorted(allowed[(5, 5, False, "D_MEM", "after_failed_write", "alone", "int", "none")])]})
+    ctx.sample({"cell": "DEBUG=4 R=2 loud DPRINTF3 as the then-arm of if (0) ... else", "allowed": [list(x) for x in sorted(allowed[(4, 2, False, "DPRINTF3", "clean", "then_false", "int", "none")])]})
     ctx.assumptions += ["probe and library compiled with clang from the current tree with a shim config.h per DEBUG value",
                         "stream output is classified by its marker (FATAL: / Warning: / Error: / other = debug)"]
 
 
-HLETTER = {"clean": "X", "after_failed_write": "Y", "in_atexit_of_fatal": "A"}
+HLETTER = {"clean": "X", "after_failed_write": "Y", "in_atexit_of_fatal": "A", "after_refused_print": "R"}
+FKIND = {"EINTR": 1, "EAGAIN": 2, "short": 3}
 
 
 def stmt_name(m, ty):
@@ -257,6 +265,8 @@ def cmd_text(c, a, size=0):
         a, size = a
         c = "X"
     if c == "X":
+        if a[4] != "none":
+            return "W %s %s 0 %s %d" % (stmt_name(a[0], a[3]), a[2], a[4][1], FKIND[a[4][3:]])
         return "%s %s %s %d" % (HLETTER[a[1]], stmt_name(a[0], a[3]), a[2], size)
     return "%s %d" % (c, int(a))
 
